@@ -263,7 +263,10 @@ func (c *tracingHTTP2Conn) setMaxStreamIDLocked(maxStreamID uint32, err error) {
 		if streamID > maxStreamID {
 			delete(c.streams, streamID)
 			stream.requestTracer.emitUnfinished()
-			stream.responseTracer.emitUnfinished()
+			if stream.responseTracer.builder != nil {
+				// no response headers seen yet: the response tracer has no builder
+				stream.responseTracer.emitUnfinished()
+			}
 			stream.builder.add(&ResponseBodyEnd{Err: err})
 		}
 	}
@@ -277,7 +280,10 @@ func (c *tracingHTTP2Conn) cancelAll(err error) {
 			delete(c.streams, streamID)
 			if c.isServer {
 				stream.requestTracer.emitUnfinished()
-				stream.responseTracer.emitUnfinished()
+				if stream.responseTracer.builder != nil {
+					// no response headers seen yet: the response tracer has no builder
+					stream.responseTracer.emitUnfinished()
+				}
 				stream.builder.add(&ResponseBodyEnd{Err: err})
 			} else {
 				// TODO: We shouldn't add RequestBodyEnd event if the trace
